@@ -3108,7 +3108,7 @@ def is2(m, run):
     v + sv * u of the result is row v of the second-pass solution for u; degrees, sizes and knot vectors go to their own direction"""
     fi = m.func('fitting.interpolate_surface')
     bad = []
-    cases = [((4, 3), (2, 1)), ((3, 5), (1, 2))]
+    cases = [((4, 3), (2, 1)), ((3, 5), (1, 2)), ((3, 4), (2, 3)), ((2, 3), (1, 2))]        # (the last two: a single polynomial segment per direction, degree = size - 1)
     for (su, sv), (pu, pv) in cases:
         def L(*lab):
             return Tok('DEF', dep=frozenset([lab]))
@@ -7730,3 +7730,89 @@ def vn2(m, run, rule='VN2.normalised-vector-is-v-over-its-length'):
         for fi, scen, what in ((fm_, scen_mag, 'sqrt(v . v)'), (fn_, scen_norm, 'v / |v| on every path that returns')):
             why = forked(make_sk, scen, fi.key, max_paths=64)
             run.ob(rule, '%s :: %d-D' % (fi.key, dim), why is None, what if why is None else why, 'geomdl/linalg.py:%d in %s' % (fi.node.lineno, fi.key))
+
+
+# ====================================================================================== C11: global curve interpolation against recorders
+def ic2(m, run, rule='IC2.curve-interpolation-on-labelled-points'):
+    """IC2: fitting.interpolate_curve interpreted on n labelled data points (n = 2 .. 6) for every degree 1 .. n - 1 -- the single-segment case
+    degree = n - 1 included -- and both parametrisations, its helpers replaced by recorders: the parameters are computed from the data
+    points with the caller's centripetal flag, the knot vector from (the requested degree, n, those parameters), the coefficient matrix
+    from (the requested degree, that knot vector, those parameters), one system is solved with the data points themselves as the
+    right-hand side, and the result is a curve of the requested degree with that knot vector and the n solved control points"""
+    fi = m.func('fitting.interpolate_curve')
+    bad, cnt = [], 0
+    for n in range(2, 7):
+        for p in range(1, n):
+            for cen in (None, False, True):
+                cnt += 1
+
+                def L(*lab):
+                    return Tok('DEF', dep=frozenset([lab]))
+                P = [[L('Q', i, c) for c in range(3)] for i in range(n)]
+                uk = [L('uk', i) for i in range(n)]
+                rec = {'params': [], 'kv': [], 'build': [], 'solve': []}
+
+                def lab(pt):
+                    f = footprint(pt) if isinstance(pt, (list, tuple)) else None
+                    heads = {x[:-1] for x in f} if f else set()
+                    return next(iter(heads)) if len(heads) == 1 else None
+
+                def cpc(sk, node, points, centripetal=False):
+                    rec['params'].append(([lab(q) for q in points], centripetal))
+                    return uk
+
+                def ckv(sk, node, degree, num, params):
+                    kv = [L('kv', i) for i in range(num + degree + 1)] if isinstance(num, int) and isinstance(degree, int) else [L('kv', 0)]
+                    rec['kv'].append((degree, num, params is uk, kv))
+                    return kv
+
+                def bcm(sk, node, degree, kv, params, pts_):
+                    rec['build'].append((degree, kv, params is uk, [lab(q) for q in pts_]))
+                    return ('A', len(rec['build']) - 1)
+
+                def lus(sk, node, A, rhs):
+                    rec['solve'].append((A, [lab(q) for q in rhs]))
+                    return [[L('X', i, c) for c in range(3)] for i in range(len(rhs))]
+                ab = dict(STD_ABSTRACTED)
+                ab[('fitting', 'compute_params_curve')] = Py(cpc, 'compute_params_curve')
+                ab[('fitting', 'compute_knot_vector')] = Py(ckv, 'compute_knot_vector')
+                ab[('fitting', '_build_coeff_matrix')] = Py(bcm, '_build_coeff_matrix')
+                ab[('linalg', 'lu_solve')] = Py(lus, 'lu_solve')
+                shapes = []
+                ab[('class', ('BSpline', 'Curve'))] = lambda sk, node, *a, **k: rec_shape(('BSpline', 'Curve'), shapes, {}, dict(k), 'constructed')
+                sk = SK(m, ab)
+                why = None
+                want_pts = [('Q', i) for i in range(n)]
+                try:
+                    out = sk.call(fi, [P, p], {} if cen is None else {'centripetal': cen})
+                    if len(rec['params']) != 1 or rec['params'][0][0] != want_pts:
+                        why = 'the parameters are not computed once from the data points'
+                    elif bool(rec['params'][0][1]) != bool(cen):
+                        why = 'compute_params_curve gets centripetal=%r, the caller asked for %r' % (rec['params'][0][1], bool(cen))
+                    elif len(rec['kv']) != 1 or rec['kv'][0][:3] != (p, n, True):
+                        why = 'the knot vector is computed from (degree %r, %r points, %s); requested were degree %d and %d points with the computed parameters' % (
+                            rec['kv'] and rec['kv'][0][0], rec['kv'] and rec['kv'][0][1], 'the computed parameters' if rec['kv'] and rec['kv'][0][2] else 'other parameters', p, n)
+                    elif len(rec['build']) != 1 or rec['build'][0][0] != p or rec['build'][0][1] is not rec['kv'][0][3] or not rec['build'][0][2] or rec['build'][0][3] != want_pts:
+                        why = 'the coefficient matrix is not built from (the requested degree, the computed knot vector, the computed parameters, the data points)'
+                    elif len(rec['solve']) != 1 or rec['solve'][0][0] != ('A', 0) or rec['solve'][0][1] != want_pts:
+                        why = 'the system solved is not (coefficient matrix, data points)'
+                    elif not isinstance(out, Bag):
+                        why = 'does not return a curve'
+                    else:
+                        a_ = out._a
+                        cp = a_.get('ctrlpts')
+                        if a_.get('degree') != p:
+                            why = 'the result has degree %r, requested was %d' % (a_.get('degree'), p)
+                        elif not isinstance(cp, list) or [lab(q) for q in cp] != [('X', i) for i in range(n)]:
+                            why = 'the control points of the result are not the %d solved points in order' % n
+                        elif a_.get('knotvector') is not rec['kv'][0][3]:
+                            why = 'the knot vector of the result is not the computed one'
+                except Violation as v:
+                    why = '%s %s' % (v.msg, v.where())
+                except Unsupported as ex:
+                    raise AnalysisError('%s: interpreter met an unsupported construct: %s' % (fi.key, ex))
+                if why:
+                    bad.append(('%d points, degree %d, centripetal=%r' % (n, p, cen), why))
+    run.ob(rule, '%s :: %d (points, degree, parametrisation) cases' % (fi.key, cnt), not bad,
+           'requested degree, computed parameters / knots / matrix, data points as the right-hand side, solved points as the control points' if not bad else
+           '%s: %s   [%d of %d]' % (bad[0][0], bad[0][1], len(bad), cnt), 'geomdl/fitting.py:%d in %s' % (fi.node.lineno, fi.key))
